@@ -4,12 +4,50 @@ Import ListNotations.
 Require Import V.Lib.RunCases V.C12.Model.
 Open Scope N_scope.
 
+(* projection of a compiled d2graph: per board (sorted by board path) the objects (AbsID; label, shape, fill,
+   stroke, opacity), sorted, and the connections (source AbsID, destination AbsID; label, stroke, opacity), sorted *)
+Definition pobj := (str * list str)%type.
+Definition pedge := (str * str * list str)%type.
+Definition pboard := (str * list pobj * list pedge)%type.
+Inductive gres := GErr | GOk (boards : list pboard).
+
 Inductive case :=
 | CMatch (pat : list str) (rows : list (str * option bool))
     (* d2ir.matchPattern (through the hook VerifMatchPattern) on every name of [rows] with pattern [pat];
        None = the call panicked *)
-| CPat (text : str) (pat : list str).
+| CPat (text : str) (pat : list str)
     (* d2parser.ParseKey(text): the Pattern of its first path element (oracle hypothesis: alternating) *)
+| CExp (g e : gres).
+    (* d2compiler.Compile of a glob program, and of its reference expansion (globs replaced by explicit
+       declarations on every matching target, at the glob's position for existing targets and at the creation
+       point for later ones) *)
+
+Definition strs_eqb := list_eqb str_eqb.
+Definition pobj_eqb (a b : pobj) : bool := str_eqb (fst a) (fst b) && strs_eqb (snd a) (snd b).
+Definition pedge_ends_eqb (a b : pedge) : bool :=
+  str_eqb (fst (fst a)) (fst (fst b)) && str_eqb (snd (fst a)) (snd (fst b)).
+Definition pedge_eqb (a b : pedge) : bool := pedge_ends_eqb a b && strs_eqb (snd a) (snd b).
+Definition is_self (e : pedge) : bool := str_eqb (fst (fst e)) (snd (fst e)).
+
+Definition bname (b : pboard) : str := fst (fst b).
+Definition bobjs (b : pboard) : list pobj := snd (fst b).
+Definition bedges (b : pboard) : list pedge := snd b.
+
+(* clause by clause, per board *)
+Definition check_board (g e : pboard) : list N :=
+  flag (strs_eqb (map fst (bobjs g)) (map fst (bobjs e))) 10          (* same objects *)
+  ++ flag (list_eqb pobj_eqb (bobjs g) (bobjs e)) 11                   (* with the same attribute values *)
+  ++ flag (list_eqb pedge_ends_eqb (bedges g) (bedges e)) 13           (* same connections (multiset of ends) *)
+  ++ flag (list_eqb pedge_eqb (bedges g) (bedges e)) 14                (* with the same attribute values *)
+  ++ flag (Nat.leb (length (filter is_self (bedges g))) (length (filter is_self (bedges e)))) 15.
+                                                                       (* no self-connection made by a glob *)
+
+Fixpoint check_boards (g e : list pboard) : list N :=
+  match g, e with
+  | [], [] => []
+  | b :: g', c :: e' => flag (str_eqb (bname b) (bname c)) 17 ++ check_board b c ++ check_boards g' e'
+  | _, _ => [17]
+  end.
 
 Definition res_eqb (m : res bool) (i : option bool) : bool :=
   match m, i with
@@ -48,4 +86,10 @@ Definition check_case (c : case) : list N :=
   match c with
   | CMatch pat rows => nodup N.eq_dec (flat_map (check_row pat) rows)
   | CPat text pat => flag (alternating pat || has_escaped_star text) 2
+  | CExp g e =>
+      match g, e with
+      | GOk bg, GOk be => nodup N.eq_dec (check_boards bg be)
+      | GErr, GErr => []
+      | _, _ => [16]       (* one of the two does not compile (e.g. the glob touched a reserved keyword field) *)
+      end
   end.
